@@ -97,12 +97,13 @@ structure WriterFacts where
   ruleApplies : Bool           -- generateValidatorChain asks ruleApplies; the Enum path asks enumRuleApplies
   boundArg : Bool              -- min/max/gt/gte/lt/lte arguments through boundArgument
   extraRules : Bool            -- cases length, nonempty, positive, negative, nonnegative, nonpositive
+  jsonNumKinds : Bool          -- generateSliceValue: a slice literal for every integer / float element kind
   deriving DecidableEq, Repr
 
 /-- the writer of round 4 (/repo 65a0069 … cef00ff) -/
-def WriterFacts.legacy : WriterFacts := ⟨true, true, true, false, false, false, false, false, false, false, false⟩
+def WriterFacts.legacy : WriterFacts := ⟨true, true, true, false, false, false, false, false, false, false, false, false⟩
 /-- the writer with every pending C13 patch applied -/
-def WriterFacts.repaired : WriterFacts := ⟨false, false, false, true, true, true, true, true, true, true, true⟩
+def WriterFacts.repaired : WriterFacts := ⟨false, false, false, true, true, true, true, true, true, true, true, true⟩
 
 /-! ### the structure of an emitted expression -/
 
@@ -303,7 +304,7 @@ def parseJArray (v : Str) : Option (List JItem) :=
 
 /-- `generateSliceValue` for a bracketed value: the Go slice literal for element kinds string / int / bool (items of another
     JSON type are skipped), the value verbatim for the other element kinds; `none`: JSON outside the fragment, or `%g` of float64 -/
-def sliceLiteral (v : Str) (elem : Ty) : Option Str :=
+def sliceLiteral (W : WriterFacts) (v : Str) (elem : Ty) : Option Str :=
   match parseJArray v with
   | none => none
   | some items =>
@@ -315,6 +316,12 @@ def sliceLiteral (v : Str) (elem : Ty) : Option Str :=
     | .basic .bool =>
       some (asc "[]bool{" ++ joinSep (asc ", ") (items.filterMap fun i => match i with | .bool b => some (asc (if b then "true" else "false")) | _ => none) ++ [0x7D])
     | .basic .float64 => none
+    | .basic .float32 => if W.jsonNumKinds then none else some v
+    | .basic b =>
+      -- the other integer kinds (with `jsonNumKinds`): `[]int64{1, 2}` — the kind's name is the type's name
+      if W.jsonNumKinds ∧ b != .complex64 ∧ b != .complex128 then
+        some (asc ("[]" ++ b.name ++ "{") ++ joinSep (asc ", ") (items.filterMap fun i => match i with | .int n => some (asc (toString n)) | _ => none) ++ [0x7D])
+      else some v
     | _ => some v
 
 /-- `generateTypedValue(method, value, fieldType)`: `strconv.Quote` for kind String, the value verbatim for the
@@ -322,12 +329,12 @@ def sliceLiteral (v : Str) (elem : Ty) : Option Str :=
     then `generateSliceValue` (`sliceLiteral`); maps: verbatim unless braced — then the JSON path of `generateMapValue`,
     which is not modelled (`none`: it ranges over a Go map, the order of the entries is not determined);
     pointers: the element type -/
-def typedArg (value : Str) : Ty → Option Arg
+def typedArg (W : WriterFacts) (value : Str) : Ty → Option Arg
   | .basic .string => (GenChain.emitDefaultFixed value).map Arg.quoted
-  | .ptr t => typedArg value t
+  | .ptr t => typedArg W value t
   | .slice e =>
     let v := trimSpace value
-    if v.head? = some cLBracket ∧ endsWith 0x5D v then (sliceLiteral v e).map Arg.raw else some (.raw v)
+    if v.head? = some cLBracket ∧ endsWith 0x5D v then (sliceLiteral W v e).map Arg.raw else some (.raw v)
   | .map _ _ =>
     let v := trimSpace value
     if v.head? = some cLBrace ∧ endsWith 0x7D v then none else some (.raw v)
@@ -476,7 +483,7 @@ def chainOf (W : WriterFacts) (r : Rule) (t : Ty) : Option (List Call) :=
     match ps with
     | p :: rest =>
       let value := if !rest.isEmpty && !startsWithBr p then joinSep [0x20] ps else p
-      (typedArg value t).map fun a => [⟨if n = asc "default" then "Default" else "Prefault", [a]⟩]
+      (typedArg W value t).map fun a => [⟨if n = asc "default" then "Default" else "Prefault", [a]⟩]
     | [] => some []
   else some []   -- required, uuid, enum, time, unknown names: nothing
 
@@ -504,10 +511,12 @@ def generalOptional (W : WriterFacts) (t : Ty) (required : Bool) : Bool :=
 /-- `generateFieldSchemaCode`, as a structure -/
 def emitChain (W : WriterFacts) (t : Ty) (sn : Str) (rs : List Rule) : Option Chain :=
   let required := hasName rs (asc "required")
-  if hasName rs (asc "uuid") ∧ t.isString then
+  -- `firstFormatRule`: the first `uuid` / `url` rule of the tag (the writer with the URL special case only)
+  let urlFirst : Bool := (rs.find? fun r => r.name = asc "uuid" ∨ r.name = asc "url").map (·.name) == some (asc "url")
+  if hasName rs (asc "uuid") ∧ t.isString ∧ !(W.urlCtor ∧ urlFirst) then
     (chainAll W (rs.filter fun r => r.name ≠ asc "uuid" ∧ !(W.urlCtor ∧ r.name = asc "url")) t).map fun c =>
       ⟨.uuid, c ++ optionalCall (specialOptional W t required)⟩
-  else if W.urlCtor ∧ hasName rs (asc "url") ∧ t.isString ∧ !hasName rs (asc "enum") then
+  else if W.urlCtor ∧ urlFirst ∧ t.isString ∧ !hasName rs (asc "enum") then
     (chainAll W (rs.filter (·.name ≠ asc "url")) t).map fun c => ⟨.url, c ++ optionalCall (specialOptional W t required)⟩
   else
     match (if t.isString then rs.find? (·.name = asc "enum") else none) with
@@ -565,8 +574,9 @@ inductive SrcKind
 /-- `outputPath` + the template: the generated file is `<snake(struct)>_gen.go` beside the source, it is never a _test file
     and carries no build constraint — so it is part of every build, and it refers to the struct type: the package still
     builds only if the struct is part of every build too -/
-def packageStillBuilds : SrcKind → Bool
+def packageStillBuilds (skipTestFiles : Bool) : SrcKind → Bool
   | .plain => true
-  | _ => false
+  | .testFile => skipTestFiles        -- with `skipTestFiles` nothing is generated for the struct
+  | .constrained => false
 
 end Gozod.GenEmit
